@@ -637,7 +637,7 @@ TypeOK ==
 NoViolation == viol = {}
 
 AbsJ == [cpresp |-> SortedSeq(abs.cpresp), cpsrv |-> SortedSeq(abs.cpsrv),
-         hsrv |-> SortedSeq(abs.hsrv)]
+         hsrv |-> SortedSeq(abs.hsrv), cpB |-> abs.cpB]
 
 State == [sc |-> sc, bs |-> bs, fs |-> fs, ban |-> ban, memH |-> memH, memF |-> memF,
           pc |-> pc, lastH |-> lastH, lastC |-> lastC, allp |-> allp, cpc |-> cpc,
